@@ -51,7 +51,7 @@ func runLifetime(rep *vh.Report, env vh.Env, stacks []*stack, only int) {
 		steps := 3 + r.Intn(8)
 		preExpiry := 2 + r.Intn(steps-2) // steps before the lifetime passes
 		gen := 0
-		desc := "C|" + st.kind
+		desc := "C|" + st.prov + "|" + st.kind
 		defer func() {
 			rep.Distinct(desc)
 			if i%37 == 0 {
@@ -106,7 +106,7 @@ func runLifetime(rep *vh.Report, env vh.Env, stacks []*stack, only int) {
 			gen++
 			newTok := fmt.Sprintf("lat-%s-%d", tag, gen)
 			ttl := []int64{3600, 1800, 7200}[r.Intn(3)]
-			as.IdP.Set("introspect", cs.AccessToken, sut.IntrospectOK(true))
+			as.IdP.Set(st.valEndpoint(), cs.AccessToken, validateAnswer(st.prov, 0, email))
 			as.IdP.Set("refresh", cs.RefreshToken, sut.TokenOK(newTok, "", ttl))
 			presented := as.SealCookie(cs)
 			cur = presented // the browser's cookie, seen from the shifted clock
@@ -116,10 +116,10 @@ func runLifetime(rep *vh.Report, env vh.Env, stacks []*stack, only int) {
 			rs := as.Client.Do(sut.Req{Host: as.Host, Target: as.Path("sign_in") + "?" + q.Encode(), Cookies: []string{as.CookieName + "=" + presented}})
 			took := time.Since(t0)
 			rep.Eval()
-			as.IdP.Unset("introspect", cs.AccessToken)
+			as.IdP.Unset(st.valEndpoint(), cs.AccessToken)
 			as.IdP.Unset("refresh", cs.RefreshToken)
 			refreshCalls := as.IdP.Calls("refresh", cs.RefreshToken)
-			as.IdP.Calls("introspect", cs.AccessToken)
+			as.IdP.Calls(st.valEndpoint(), cs.AccessToken)
 			ls := lifeStep{Step: k, GapS: int64(gap / time.Second), VirtualS: int64(shift / time.Second), RefreshDue: due, LifeExpired: lifeExpired, Status: rs.Status, Cookie: "untouched"}
 			if rs.Err != nil || took > edge/2 {
 				rep.Count("client_errors", 1)
@@ -137,14 +137,14 @@ func runLifetime(rep *vh.Report, env vh.Env, stacks []*stack, only int) {
 				ls.Cookie = "reissued"
 				ns := as.OpenCookie(v)
 				if ns == nil {
-					rep.Violate(streamLifetime, i, "sign_in: reissued-cookie-does-not-open", "re-issued cookie does not open", kc)
+					st.violate(rep, streamLifetime, i, "sign_in: reissued-cookie-does-not-open", "re-issued cookie does not open", kc)
 					return
 				}
 				vlife := ns.LifetimeDeadline.Add(shift)
 				ls.VLifeDeltaS = int64(vlife.Sub(life0) / time.Second)
 				if vlife.After(life0.Add(time.Second)) {
 					kc.Steps = append(kc.Steps, ls)
-					rep.Violate(streamLifetime, i, "lifetime: deadline-moved-later "+fmtBool(due, "at-refresh", "at-validate"),
+					st.violate(rep, streamLifetime, i, "lifetime: deadline-moved-later "+fmtBool(due, "at-refresh", "at-validate"),
 						fmt.Sprintf("after %d s of virtual time the session's LifetimeDeadline lies %d s later than the one fixed at login", ls.VirtualS, ls.VLifeDeltaS), kc)
 					return
 				}
@@ -155,11 +155,11 @@ func runLifetime(rep *vh.Report, env vh.Env, stacks []*stack, only int) {
 				desc += "|expired"
 				rep.Count("lifetime_expiry_observed", 1)
 				if issued || carriesCode(as, rs.Location(), string(rs.Body)) {
-					rep.Violate(streamLifetime, i, "lifetime: code-issued-after-lifetime", fmt.Sprintf("code issued %d s of virtual time after login, lifetime is %d s", ls.VirtualS, kc.LifetimeS), kc)
+					st.violate(rep, streamLifetime, i, "lifetime: code-issued-after-lifetime", fmt.Sprintf("code issued %d s of virtual time after login, lifetime is %d s", ls.VirtualS, kc.LifetimeS), kc)
 					return
 				}
 				if !(set && cleared) {
-					rep.Violate(streamLifetime, i, "lifetime: expired-cookie-not-cleared site=sign_in", "a lifetime-expired authenticator cookie was not cleared", kc)
+					st.violate(rep, streamLifetime, i, "lifetime: expired-cookie-not-cleared site=sign_in", "a lifetime-expired authenticator cookie was not cleared", kc)
 					return
 				}
 				// the browser that ignores the clearing keeps presenting the old cookie: cur stays
@@ -176,17 +176,17 @@ func runLifetime(rep *vh.Report, env vh.Env, stacks []*stack, only int) {
 				desc += "|refresh"
 				rep.Count("lifetime_refresh_observed", 1)
 				if len(refreshCalls) == 0 {
-					rep.Violate(streamLifetime, i, "sign_in: code-issued-without-idp-confirmation path=refresh", "refresh was due, a code was issued, the IdP saw no refresh call", kc)
+					st.violate(rep, streamLifetime, i, "sign_in: code-issued-without-idp-confirmation path=refresh", "refresh was due, a code was issued, the IdP saw no refresh call", kc)
 					return
 				}
 			} else {
 				desc += "|validate"
 			}
 			if cc := as.OpenCode(code); cc == nil {
-				rep.Violate(streamLifetime, i, "sign_in: code-does-not-open", "issued code does not open", kc)
+				st.violate(rep, streamLifetime, i, "sign_in: code-does-not-open", "issued code does not open", kc)
 				return
 			} else if cc.LifetimeDeadline.Add(shift).After(life0.Add(time.Second)) {
-				rep.Violate(streamLifetime, i, "lifetime: deadline-moved-later in-code", "the code's session has a later LifetimeDeadline than the one fixed at login", kc)
+				st.violate(rep, streamLifetime, i, "lifetime: deadline-moved-later in-code", "the code's session has a later LifetimeDeadline than the one fixed at login", kc)
 				return
 			}
 			if ls.Cookie != "reissued" {
